@@ -301,6 +301,230 @@ fn paren_depth(text: &str) -> usize {
     max
 }
 
+
+// ---- checksummed / length-checked literals -------------------------------------------------------
+//
+// Character-level mutations destroy a bech32m checksum, so the code behind the checksum (HRP /
+// entity-type / length checks, conversions into fixed-size ids) would never see a near-valid
+// literal. These mutations *re-encode*: the checksum is always valid, what varies is the payload
+// length (0..=29, 31..=40 instead of 30; hashes: != 32), the HRP (wrong for the entity byte, other
+// network, transaction-hash HRPs), the entity byte, and the bech32 variant.
+
+const ALL_ENTITY_BYTES: &[u8] = &[
+    0x0d, 0x86, 0x83, 0x82, 0xc0, 0xc1, 0xc2, 0xc3, 0xc4, 0xc5, 0xc6, 0x68, 0xd1, 0xd2, 0x51, 0x52, 0x5d, 0x58, 0x9a, 0x98, 0xf8, 0xb0,
+];
+
+fn bech32m(hrp: &str, payload: &[u8], m: bool) -> Option<String> {
+    use bech32::ToBase32;
+    bech32::encode(hrp, payload.to_base32(), if m { bech32::Variant::Bech32m } else { bech32::Variant::Bech32 }).ok()
+}
+
+fn bech32_payload(s: &str) -> Option<(String, Vec<u8>)> {
+    use bech32::FromBase32;
+    let (hrp, data, _variant) = bech32::decode(s).ok()?;
+    Some((hrp, Vec::<u8>::from_base32(&data).ok()?))
+}
+
+fn entity_hrp(network: &NetworkDefinition, entity_byte: u8) -> String {
+    let set = radix_common::address::HrpSet::from(network);
+    match EntityType::from_repr(entity_byte) {
+        Some(et) => set.get_entity_hrp(&et).to_string(),
+        None => set.account.clone(),
+    }
+}
+
+fn odd_len(g: &mut Gen, proper: usize) -> usize {
+    loop {
+        let n = if g.chance(1, 2) { *g.pick(&[0usize, 1, 2, proper - 1, proper + 1, proper + 2, 40]) } else { g.range_usize(0, 40) };
+        if n != proper {
+            return n;
+        }
+    }
+}
+
+/// A checksum-valid address-like literal; `label` says what is off (if anything).
+fn craft_address(g: &mut Gen, base: Option<(String, Vec<u8>)>, network: &NetworkDefinition) -> (String, &'static str) {
+    let (mut hrp, mut payload) = match base {
+        Some(b) => b,
+        None => {
+            let eb = *g.pick(ALL_ENTITY_BYTES);
+            let mut p: Vec<u8> = match g.below(3) {
+                0 => vec![0u8; 30],
+                1 => vec![0xff; 30],
+                _ => g.bytes(30),
+            };
+            p[0] = eb;
+            (entity_hrp(network, eb), p)
+        }
+    };
+    let is_hash = hrp.contains("txid") || hrp.starts_with("subtxid") || hrp.starts_with("signedintent") || hrp.starts_with("notarizedtransaction");
+    let proper = if is_hash { 32 } else { 30 };
+    let mut m = true;
+    let label = match g.weighted(&[8, 2, 2, 1, 2, 1, 2]) {
+        0 => {
+            let n = odd_len(g, proper);
+            payload.resize(n, 0x5a);
+            "literal: valid bech32m, wrong payload length"
+        }
+        1 => {
+            // HRP of another entity type of the same network
+            let other = *g.pick(ALL_ENTITY_BYTES);
+            hrp = entity_hrp(network, other);
+            "literal: valid bech32m, HRP of another entity type"
+        }
+        2 => {
+            let net = if g.bool() { NetworkDefinition::mainnet() } else { NetworkDefinition::stokenet() };
+            let eb = payload.first().copied().unwrap_or(0xc1);
+            hrp = if is_hash { hrp.replace("sim", &net.hrp_suffix) } else { entity_hrp(&net, eb) };
+            "literal: valid bech32m, other network"
+        }
+        3 => {
+            m = false;
+            "literal: bech32 (not bech32m) checksum"
+        }
+        4 => {
+            if let Some(b) = payload.first_mut() {
+                *b = *g.pick(&[0x00u8, 0x01, 0x0c, 0x0e, 0xff, 0x5c]);
+            }
+            "literal: valid bech32m, unknown entity byte"
+        }
+        5 => {
+            // both: wrong length and a transaction-hash / address HRP swap
+            hrp = if is_hash { entity_hrp(network, 0xc1) } else { format!("subtxid_{}", network.hrp_suffix) };
+            let n = if g.bool() { proper } else { odd_len(g, proper) };
+            payload.resize(n, 0x5a);
+            "literal: valid bech32m, address / hash HRP swapped"
+        }
+        _ => "literal: valid bech32m, well-formed",
+    };
+    match bech32m(&hrp, &payload, m) {
+        Some(s) => (s, label),
+        None => ("account_sim1".to_string(), "literal: not encodable"),
+    }
+}
+
+/// Re-encode one bech32 string literal of the text (address, `addr:<id>` global id, transaction hash).
+fn reencode_literal(g: &mut Gen, text: &mut String, network: &NetworkDefinition) -> Option<&'static str> {
+    let mut t = rough_tokens(text);
+    let mut candidates: Vec<(usize, String, Vec<u8>, String)> = Vec::new();
+    for (i, tok) in t.iter().enumerate() {
+        if tok.len() >= 10 && tok.starts_with('"') && tok.ends_with('"') {
+            let inner = &tok[1..tok.len() - 1];
+            let (addr, rest) = match inner.split_once(':') {
+                Some((a, r)) => (a, format!(":{}", r)),
+                None => (inner, String::new()),
+            };
+            if let Some((hrp, payload)) = bech32_payload(addr) {
+                candidates.push((i, hrp, payload, rest));
+            }
+        }
+    }
+    if candidates.is_empty() {
+        return None;
+    }
+    let (i, hrp, payload, rest) = g.pick(&candidates).clone();
+    let (lit, label) = craft_address(g, Some((hrp, payload)), network);
+    t[i] = format!("\"{}{}\"", lit, rest);
+    *text = t.concat();
+    Some(label)
+}
+
+fn good(network: &NetworkDefinition, node: &[u8]) -> String {
+    AddressBech32Encoder::new(network).encode(node).expect("well-known address encodes")
+}
+
+/// Insert an instruction that carries a crafted literal in one of the positions where the
+/// generator converts it into a fixed-size id.
+fn insert_literal_instruction(g: &mut Gen, text: &mut String, network: &NetworkDefinition) -> &'static str {
+    let (x, label) = craft_address(g, None, network);
+    #[allow(non_snake_case)]
+    let GOOD_COMPONENT = good(network, FAUCET.as_bytes());
+    #[allow(non_snake_case)]
+    let GOOD_PACKAGE = good(network, FAUCET_PACKAGE.as_bytes());
+    let good_nf = good(network, PACKAGE_OF_DIRECT_CALLER_RESOURCE.as_bytes());
+    let n_positions = 24;
+    let (instr, label): (String, &'static str) = match g.below(n_positions) {
+        0 => (format!("CALL_METHOD Address(\"{x}\") \"m\";"), label),
+        1 => (format!("CALL_FUNCTION Address(\"{x}\") \"B\" \"f\";"), label),
+        2 => (format!("TAKE_ALL_FROM_WORKTOP Address(\"{x}\") Bucket(\"zz9\"); RETURN_TO_WORKTOP Bucket(\"zz9\");"), label),
+        3 => (format!("ASSERT_WORKTOP_CONTAINS_ANY Address(\"{x}\");"), label),
+        4 => (format!("CALL_METHOD Address(\"{GOOD_COMPONENT}\") \"m\" Address(\"{x}\");"), label),
+        5 => (format!("CALL_METHOD Address(\"{GOOD_COMPONENT}\") \"m\" Tuple(Some(Address(\"{x}\")), 1u8);"), label),
+        6 => (format!("CALL_METHOD Address(\"{GOOD_COMPONENT}\") \"m\" Array<Address>(Address(\"{x}\"));"), label),
+        7 => (format!("CALL_METHOD Address(\"{GOOD_COMPONENT}\") \"m\" Map<Address, U8>(Address(\"{x}\") => 1u8);"), label),
+        8 => (format!("CALL_METHOD Address(\"{GOOD_COMPONENT}\") \"m\" NonFungibleGlobalId(\"{x}:#1#\");"), label),
+        9 => (format!("CALL_METHOD Address(\"{GOOD_COMPONENT}\") \"m\" Array<Tuple>(NonFungibleGlobalId(\"{x}:<a>\"));"), label),
+        10 => (format!("ALLOCATE_GLOBAL_ADDRESS Address(\"{x}\") \"B\" AddressReservation(\"zr9\") NamedAddress(\"zn9\");"), label),
+        11 => (format!("USE_PREALLOCATED_ADDRESS Address(\"{GOOD_PACKAGE}\") \"B\" AddressReservation(\"zp9\") Address(\"{x}\");"), label),
+        12 => (format!("USE_PREALLOCATED_ADDRESS Address(\"{x}\") \"B\" AddressReservation(\"zp8\") Address(\"{GOOD_COMPONENT}\");"), label),
+        13 => (format!("CALL_DIRECT_VAULT_METHOD Address(\"{x}\") \"m\";"), label),
+        14 => (format!("RECALL_FROM_VAULT Address(\"{x}\") Decimal(\"1\");"), label),
+        15 => (format!("ASSERT_WORKTOP_RESOURCES_ONLY Map<Address, Enum>(Address(\"{x}\") => Enum<0u8>());"), label),
+        16 => (format!("SET_METADATA Address(\"{x}\") \"k\" Enum<0u8>(\"v\");"), label),
+        17 => (format!("MINT_FUNGIBLE Address(\"{x}\") Decimal(\"1\");"), label),
+        18 => (format!("VERIFY_PARENT Enum<2u8>(Enum<0u8>(Enum<0u8>(Enum<1u8>(Address(\"{x}\")))));"), label),
+        19 => (format!("USE_CHILD NamedIntent(\"zc9\") Intent(\"{x}\");"), label),
+        // other length- / range-checked literals
+        20 => {
+            let n = *g.pick(&[0usize, 1, 31, 33, 64]);
+            let mut h = "ab".repeat(n);
+            if g.chance(1, 4) {
+                h.push('a');
+            }
+            (format!("CALL_METHOD Address(\"{GOOD_COMPONENT}\") \"m\" Blob(\"{h}\");"), "literal: blob hash of wrong length")
+        }
+        21 => {
+            let d = *g.pick(&[
+                "3138550867693340381917894711603833208051.177722232017256448",
+                "-3138550867693340381917894711603833208051.177722232017256449",
+                "1.0000000000000000001",
+                "99999999999999999999999999999999999999999999999999999999999999999999999999",
+                "1e5",
+                "",
+                ".5",
+                "1.",
+            ]);
+            let ty = if g.bool() { "Decimal" } else { "PreciseDecimal" };
+            (format!("CALL_METHOD Address(\"{GOOD_COMPONENT}\") \"m\" {ty}(\"{d}\");"), "literal: decimal out of range / malformed")
+        }
+        22 => {
+            let id = match g.below(6) {
+                0 => format!("<{}>", "a".repeat(65)),
+                1 => "<>".to_string(),
+                2 => format!("[{}]", "ab".repeat(65)),
+                3 => "#18446744073709551616#".to_string(),
+                4 => "{1111111111111111-1111111111111111-1111111111111111}".to_string(),
+                _ => "[abc]".to_string(),
+            };
+            let wrap = if g.bool() { format!("NonFungibleLocalId(\"{id}\")") } else { format!("NonFungibleGlobalId(\"{good_nf}:{id}\")") };
+            (format!("CALL_METHOD Address(\"{GOOD_COMPONENT}\") \"m\" {wrap};"), "literal: non-fungible id out of bounds")
+        }
+        _ => {
+            let v = *g.pick(&["Bytes(\"abc\")", "Bytes(\"zz\")", "Expression(\"ENTIRE\")", "Enum<256u16>()", "Array<Bucket>(Bucket(4294967295u32))", "Proof(4294967296u64)", "AddressReservation(0u32)", "NamedAddress(7u32)"]);
+            (format!("CALL_METHOD Address(\"{GOOD_COMPONENT}\") \"m\" {v};"), "literal: other malformed typed literal")
+        }
+    };
+    // pseudo-instructions only count at the top; everything else anywhere between instructions
+    let at_top = instr.starts_with("USE_");
+    let pieces: Vec<&str> = text.split_inclusive(';').collect();
+    let pos = if at_top { 0 } else { g.index(pieces.len() + 1) };
+    let mut out = String::new();
+    for (i, p) in pieces.iter().enumerate() {
+        if i == pos {
+            out.push_str(&instr);
+            out.push('\n');
+        }
+        out.push_str(p);
+    }
+    if pos >= pieces.len() {
+        out.push('\n');
+        out.push_str(&instr);
+        out.push('\n');
+    }
+    *text = out;
+    label
+}
+
 fn span_of(e: &CompileError) -> Span {
     match e {
         CompileError::LexerError(e) => e.span,
@@ -386,6 +610,14 @@ fn panic_location(p: &str) -> String {
 }
 
 fn case(g: &mut Gen) -> Outcome {
+    case_inner(g, false)
+}
+
+fn literals_case(g: &mut Gen) -> Outcome {
+    case_inner(g, true)
+}
+
+fn case_inner(g: &mut Gen, literal_part: bool) -> Outcome {
     let network = NetworkDefinition::simulator();
     let mut kind = *g.pick(&Kind::ALL);
     let mut blobs = if g.bool() { Blobs::Mock } else { Blobs::None };
@@ -429,6 +661,25 @@ fn case(g: &mut Gen) -> Outcome {
             }
         }
     };
+    if literal_part {
+        // one or two crafted literals first, the ordinary mutations (line endings, ...) on top
+        let n = 1 + g.weighted(&[3, 1]);
+        for _ in 0..n {
+            let l = if g.bool() { reencode_literal(g, &mut text, &network) } else { None };
+            let l = match l {
+                Some(l) => {
+                    g.label("literal re-encoded in place");
+                    l
+                }
+                None => {
+                    g.label("instruction with crafted literal inserted");
+                    insert_literal_instruction(g, &mut text, &network)
+                }
+            };
+            g.label(l);
+        }
+        g.nontrivial();
+    }
     let n_mut = g.weighted(&[1, 5, 3, 2]);
     for _ in 0..n_mut {
         let l = mutate(g, &mut text);
@@ -544,9 +795,13 @@ pub fn check() -> Check {
     Check::new(
         "C31",
         "The manifest compiler never crashes",
-        "Texts = built-in manifests, the example .rtm corpus, decompiler output of generated manifests, or raw bytes as (lossy) UTF-8, with 0-3 mutations: token deleted / duplicated / swapped, delimiter deleted / inserted (bracket imbalance, unterminated strings), dictionary tokens (keywords, odd literals, bad escapes, lone surrogates), huge integers, nesting at and far past the parser depth limit, very long lines, line endings rewritten to CRLF / CR / mixed, 1-12 leading lines, BOM, tabs, non-ASCII characters at any position, trailing garbage, truncation; compiled as each of the four manifest kinds. compile_any_manifest must return (twice the same, sometimes from a second thread); on Err, compile_error_diagnostics must render in both styles without panicking, identically twice, and show the source line of the error span (line computed from the span's char index). Non-trivial = text contains CR, or is rejected with an error after line 6 or after a non-ASCII character. Distinct = distinct decoded choice sequences.",
+        "Texts = built-in manifests, the example .rtm corpus, decompiler output of generated manifests, or raw bytes as (lossy) UTF-8, with 0-3 mutations: token deleted / duplicated / swapped, delimiter deleted / inserted (bracket imbalance, unterminated strings), dictionary tokens (keywords, odd literals, bad escapes, lone surrogates), huge integers, nesting at and far past the parser depth limit, very long lines, line endings rewritten to CRLF / CR / mixed, 1-12 leading lines, BOM, tabs, non-ASCII characters at any position, trailing garbage, truncation; compiled as each of the four manifest kinds. compile_any_manifest must return (twice the same, sometimes from a second thread); on Err, compile_error_diagnostics must render in both styles without panicking, identically twice, and show the source line of the error span (line computed from the span's char index). A third part plants checksum-valid but otherwise wrong bech32m literals (payload of 0-29 / 31-40 bytes, HRP of another entity type or network, unknown entity byte, bech32 instead of bech32m, address/hash HRP swapped) by re-encoding literals in place or inserting instructions carrying them in every address position (instruction arguments, values nested in call arguments, NonFungibleGlobalId, assertion maps, USE_CHILD / USE_PREALLOCATED_ADDRESS), plus blob hashes, decimals, non-fungible ids and typed literals out of bounds. Non-trivial = text contains CR, or is rejected with an error after line 6 or after a non-ASCII character, or carries a crafted literal. Distinct = distinct decoded choice sequences.",
     )
     .assume("blob providers: none, accept-all mock, or the generated manifest's own blobs")
+    // checksum-valid but otherwise wrong bech32m literals (addresses, global ids, intent hashes) and
+    // other length- / range-checked literals, re-encoded in place or inserted in every position an
+    // address literal can take
+    .part(Part::new("literals", 60_000, 4_000_000, 1024, literals_case))
     .part(Part::new("texts", 100_000, 5_000_000, 1536, case))
     // the same case function on short tapes: mostly built-in bases with one or two mutations
     // (cheap, and failures shrink to a handful of bytes)
